@@ -173,7 +173,10 @@ class Engine(
 
     def transfer(self, target: Relation, payload: Any | None = None) -> Select:
         # Docstring inherited.
-        return Select.apply_skip(super().transfer(target, payload))
+        # The base class returns a relation already in this engine unchanged
+        # (or shortcuts back to one); conform it rather than assuming it can
+        # be wrapped as-is.
+        return self.conform(super().transfer(target, payload))
 
     def make_doomed_relation(
         self, columns: Set[ColumnTag], messages: Sequence[str], name: str = "0"
